@@ -206,6 +206,15 @@ func runScenario(name, tier string) *scenarioResult {
 				break
 			}
 		}
+		for k := range profs[t].changed {
+			// a package-level variable written during a call, without synchronisation: every call in these scenarios
+			// may be made by two goroutines at once (on distinct values, or as read-only queries on a shared one), so
+			// the write races with itself whatever it stores. (The pinned tree writes no package-level state at all.)
+			if !strings.Contains(k, "shared:") && !syncOwned(k) {
+				res.Violations = append(res.Violations, violation{Class: "interference/call-writes-unsynchronised-package-level-state", What: fmt.Sprintf("thread %d, running alone, wrote the package-level location %s (first at %s); two goroutines making this call race on it", t, k, firstDirtySite(profs[t], k)), Scenario: name})
+				break
+			}
+		}
 		for u := 0; u < t; u++ {
 			for k := range profs[t].changed {
 				if profs[u].changed[k] && !syncOwned(k) {
@@ -214,6 +223,14 @@ func runScenario(name, tier string) *scenarioResult {
 				}
 			}
 		}
+	}
+	if len(res.Violations) > 0 {
+		// the solo footprints already show a violation (they are violations by themselves): exploring schedules of a
+		// scenario whose shared region is being written would add nothing and can take very long (every execution
+		// re-hashes the region after every point)
+		res.Mode = "solo-footprints (violation found; schedule exploration skipped)"
+		res.WallS = time.Since(start).Seconds()
+		return res
 	}
 	anyDirty := len(res.Dirty) > 0
 	var totalPoints int64
